@@ -65,7 +65,7 @@ type ShardOut struct {
 	Cov        cov.Shard   `json:"cov"`
 	Violations []Violation `json:"violations"`
 	// KnownConfirmed lists known findings whose committed example still fails.
-	KnownConfirmed []string `json:"known_confirmed"`
+	KnownConfirmed []string   `json:"known_confirmed"`
 	Rapid          []RapidRun `json:"rapid"`
 	OracleFail     []string   `json:"oracle_fail"` // oracle self-test failures (exit 2, never a violation)
 	Done           bool       `json:"done"`
@@ -146,6 +146,8 @@ func Setup(t *testing.T, id string) *Env {
 		}
 	}
 	flag.Set("rapid.nofailfile", "true")
+	flag.Set("rapid.shrinktime", "10s")
+	debug.SetGCPercent(400)
 	if os.Getenv("VERIF_NOWATCHDOG") == "" {
 		go e.watchdog()
 	}
